@@ -24,6 +24,8 @@ def tasks(tier):
         if kind == "A":  # one call with (send)->(raise) | raise, then an action-free follow-up (thorough: two)
             p.update(calls=2 if quick else 3, call_budgets=[2, 0, 0], policy="send-then-raise", actions=["send", "raise"],
                      follow=["go"] if quick else ["go", "hop", "tick"])
+        elif kind == "U":  # a nested send of a name the class does not declare (must be queued and refused when its turn comes)
+            p.update(calls=2, call_budgets=[1, 0], policy=None, actions=["send"], follow=["go"], send_events=["nope"])
         elif kind == "C":  # two nested sends from the first event's own callbacks (a queued event may be refused with others behind it)
             p.update(calls=2, call_budgets=[2, 0], policy=None, actions=["send"], follow=["go"] if quick else ["go", "hop", "tick"], top_only=True)
         else:  # B: repeated failures: each of two consecutive calls may raise once; then an action-free call
@@ -47,9 +49,13 @@ def tasks(tier):
             hist("C", "sync", True, 0, first)
             if first == 0:
                 hist("C", "async", True, 0, first)
+                hist("U", "sync", True, 0, first)
+                hist("U", "sync", False, 1, first)
+                hist("U", "async", True, 2, first)
+                hist("A", "sync", True, 1, first, allow=True)  # from b: a nested `hop` is valid only in the target state c
         else:
             for s0 in range(4):
-                for kind in "ABC":
+                for kind in "ABCU":
                     hist(kind, "async", True, s0, first)
                     hist(kind, "sync", True, s0, first)
                     hist(kind, "sync", False, s0, first)
@@ -64,7 +70,7 @@ BUDGET = {
 BOUNDS = {
     "quick": "T-chain template. Scenario A: first call (event fixed per task) with either a raise, or a nested send {go,hop} optionally "
     "followed by a raise, each placed at any callback invocation (validator, guards, the 5 generic action callbacks; first, nested or queued "
-    "transition; initial enter callback in the from-construction scenario), then an action-free follow-up call (go). Scenario C: two nested sends {go,hop} from the first event's own callbacks, then a follow-up. Scenario B: two "
+    "transition; initial enter callback in the from-construction scenario), then an action-free follow-up call (go). Scenario C: two nested sends {go,hop} from the first event's own callbacks, then a follow-up. Scenario U: one nested send of an undeclared event name. Scenario B: two "
     "consecutive calls that may each raise at any invocation, then an action-free call. Engines sync rtc (all pre-states, also "
     "allow_event_without_transition), sync non-rtc (pre-states a, c), all-async (pre-state a; construction).",
     "thorough": "two follow-up calls, follow-up events {go,hop,tick}, a listener adding 3 more callbacks per transition, all pre-states on every engine.",
